@@ -122,7 +122,8 @@ def check_C10(tier):
     trace = os.path.join(BUILD, "traces", "C10_trace.ndjson")
     n = 300 if tier == "quick" else 6000
     stride = 64 if tier == "quick" else 1
-    res.evaluations += run_vh(["evt", "--in", beh, "--n", str(n), "--stride", str(stride), "--seed", str(seed())], trace,
+    res.evaluations += run_vh(["evt", "--in", beh, "--n", str(n), "--stride", str(stride), "--seed", str(seed()),
+                               "--data", os.path.join(REPO, "physics", "data")], trace,
                               timeout=7200)
     for k, part in enumerate(split_file(trace, 600)):
         validate_dec_trace(res, part, "C10_%d" % k, module="Trace_MainEvent", descriptor=evt_descriptor)
@@ -239,6 +240,29 @@ def check_C09(tier):
                 kinds.add((rec.get("kind"), rec.get("verdict")))
                 if len(res.samples) < 3 and rec.get("kind", "").startswith("sim"):
                     res.add_sample(slim(rec, 8), 3)
+    # "... so the vertex program can always emit a row for every event serial number": a few runs of real files
+    # through the real alpha-g-vertices (undecodable events first / in the middle / last, empty files, events
+    # without banks); only abnormal ends (panic, abort, hang) count here - rows and columns are C19's business
+    import p_proto
+    bins = build_bins()
+    work = os.path.join(BUILD, "work_C09")
+    tr2 = os.path.join(BUILD, "traces", "C09_vertices.ndjson")
+    res.evaluations += run_vh(["csvrun", "--bindir", bins, "--work", work, "--n", "25" if tier == "quick" else "400",
+                               "--seed", str(seed() + 9), "--tier", tier], tr2, timeout=7200)
+    shutil.rmtree(work, ignore_errors=True)
+    nruns = 0
+    for k, part in enumerate(split_file(tr2, 300)):
+        checked, mism, _ = tlc_validate("Trace_RunCsv", part, "C09_bin_%d" % k)
+        res.traces += checked
+        recs = fetch_records(part, [m[0] for m in mism if m[1] == "crash"])
+        for m in mism:
+            if m[1] == "crash":
+                rec = recs.get(m[0], {"i": m[0]})
+                res.report(p_proto.csvrun_descriptor(rec, "crash"), p_proto.slim(rec), "crash")
+    with open(tr2) as f:
+        for line in f:
+            nruns += len(json.loads(line).get("runs", []))
+    res.extra["vertices_program_runs"] = nruns
     res.distinct = len(kinds)
     res.extra["shapes"] = ns
     return res.finish()
